@@ -8,6 +8,7 @@ import (
 	"runtime"
 	"sort"
 	"strconv"
+	"strings"
 	"sync"
 	"sync/atomic"
 	"testing/synctest"
@@ -174,6 +175,16 @@ func (s *Sim) taskFor(name string) *Task {
 	s.mu.Lock()
 	defer s.mu.Unlock()
 	t, ok := s.tasks[gid]
+	if ok && strings.HasPrefix(t.Name, "?") && !strings.HasPrefix(name, "?") && name != "" {
+		// a goroutine first seen at an anonymous scheduling point gets its real name at its first named park
+		delete(s.byName, t.Name)
+		s.names[name]++
+		if s.names[name] > 1 {
+			name = fmt.Sprintf("%s~%d", name, s.names[name])
+		}
+		t.Name = name
+		s.byName[name] = t
+	}
 	if !ok {
 		// a name must be unique among live tasks; re-used names get a generation suffix
 		s.names[name]++
